@@ -891,10 +891,16 @@ Proof.
     + rewrite isc_app. rewrite (bind_isc _ _ _ _ _ DA). reflexivity.
 Qed.
 
+(* the hypothesis of the theorem, on the trace so far: a leaked container has been reported *)
+Definition BadL (t : list ev) : Prop := exists kd id, In (ELeak kd id) t /\ leak_kind kd = true.
+
+Lemma BadL_ext s s' : ext s s' -> BadL (tr s) -> BadL (tr s').
+Proof. intros E (kd & id & H & L). exists kd, id. split; auto. eapply ext_in; eauto. Qed.
+
 Lemma IL_leaks m k0 s pre s' :
   Lin (MLeaks :: k0) s -> handle MLeaks s = (pre, s') ->
   monr stepL iL (tr s) = Some m -> RL m (MLeaks :: k0) s ->
-  BadT (tr s') \/ exists m', monr stepL iL (tr s') = Some m' /\ RL m' (pre ++ k0) s'.
+  BadL (tr s') \/ exists m', monr stepL iL (tr s') = Some m' /\ RL m' (pre ++ k0) s'.
 Proof.
   intros L E M R. pose proof E as E0. cbn [handle] in E. inversion E; subst pre s'; clear E.
   destruct (class_flags_tr s) as (fl & TR1 & FM & _).
@@ -904,7 +910,7 @@ Proof.
   { unfold leaks. rewrite <- HLL. change (tr (set_tr (class_flags s) (rev (map (fun p : N * N => ELeak (fst p) (snd p)) LL) ++ t1)))
       with (rev (map (fun p : N * N => ELeak (fst p) (snd p)) LL) ++ t1). rewrite TR1. reflexivity. }
   destruct (existsb (fun p => leak_kind (fst p)) LL) eqn:EX.
-  { left. right. apply existsb_exists in EX as (p & IN & LK). exists (fst p), (snd p). split; auto.
+  { left. apply existsb_exists in EX as (p & IN & LK). exists (fst p), (snd p). split; auto.
     rewrite TRS. apply in_or_app. left. apply -> in_rev. apply in_map_iff. exists p. auto. }
   right. exists m.
   assert (NFL : forallb pbL fl = true).
@@ -941,7 +947,7 @@ Qed.
 Theorem step_RL k s k' s' m :
   Lin k s -> KI k s -> step k s = Some (k', s') ->
   monr stepL iL (tr s) = Some m -> RL m k s ->
-  BadT (tr s') \/ exists m', monr stepL iL (tr s') = Some m' /\ RL m' k' s'.
+  BadL (tr s') \/ exists m', monr stepL iL (tr s') = Some m' /\ RL m' k' s'.
 Proof.
   intros L K H M R. destruct k as [|mo k0]; [discriminate|]. simpl in H.
   destruct (handle mo s) as [pre s1] eqn:E. inversion H; subst; clear H.
